@@ -9,10 +9,13 @@
    (iii) composition for C13: the answer the replay gives to a DbEvinfo call is
          (db_unwritten_classes, db_is_overflown) of the database state reached by replaying the calls
          before it, and the response the session then transmits (write_solicited / write_unsolicited,
-         through response_iin) carries exactly these bits. *)
+         through response_iin) carries exactly these bits - first locally (c13_composition), then for
+         whole steps of the composed model (fevent_c13, fstep_c13, fstart_c13): EVERY response a step
+         builds and transmits carries the class bits and the overflow bit of the database state at the
+         moment of its DbEvinfo call.  The session half of that is Outstation/SessionEvinfo.v. *)
 From Dnp3V Require Import Base.Bytes App.Grammar.
 From Dnp3V Require Import Outstation.DbTypes Outstation.EventBuffer Outstation.StaticDb Outstation.Database.
-From Dnp3V Require Import Outstation.Session Outstation.Full.
+From Dnp3V Require Import Outstation.Session Outstation.SessionEvinfo Outstation.Full.
 Import ListNotations.
 Open Scope N_scope.
 
@@ -139,7 +142,8 @@ Lemma replay_step f F run r d c log a k :
   walk F (rs_db r) (rs_ctx r) (rs_settled r) (rs_log r) (skipn (rs_settled r) (snd (run (rs_answers r ++ [sentinel]))))
   = WAsk d c log a k ->
   replay (S f) F run r
-  = replay f F run {| rs_answers := rs_answers r ++ [a]; rs_db := d; rs_ctx := c; rs_settled := k; rs_log := log |}.
+  = replay f F run {| rs_answers := rs_answers r ++ [a]; rs_db := d; rs_ctx := c; rs_settled := k; rs_log := log;
+                      rs_snaps := if answer_is_evinfo a then rs_snaps r ++ [d] else rs_snaps r |}.
 Proof. intros H. cbn [replay]. rewrite H. reflexivity. Qed.
 
 (* when the replay converges, the last pass went to the end of the output of the run on
@@ -166,37 +170,31 @@ Proof. apply in_rev. rewrite rev_involutive. left. reflexivity. Qed.
 
 (* a step of the composed model whose log does not contain FReplayError IS a run of the session model
    on the computed answers, and that run asks nothing that was left without an answer *)
-Theorem replay_event_complete F d c run s1 d1 ans out log :
-  replay_event F d c run = (s1, d1, ans, out, log) ->
-  ~ In FReplayError log ->
-  run ans = (s1, out) /\ Forall (fun o => o <> OMissingAnswer) out.
+Theorem replay_event_complete F d c run :
+  let ro := replay_event F d c run in
+  ~ In FReplayError (ro_log ro) ->
+  run (ro_answers ro) = (ro_s ro, ro_out ro) /\ Forall (fun o => o <> OMissingAnswer) (ro_out ro).
 Proof.
-  unfold replay_event. intros H Hno.
+  unfold replay_event. cbv zeta.
   destruct (replay replay_fuel F run _) as [r|r] eqn:R.
-  - destruct (run (rs_answers r)) as [s1' out'] eqn:Erun.
-    inversion H; subst; clear H.
+  - destruct (run (rs_answers r)) as [s1 out] eqn:Erun. cbn [ro_log ro_answers ro_s ro_out].
     destruct (forallb (fun o => negb (is_missing o)) out && (length out =? rs_settled r)%nat) eqn:Ok.
-    + split; [exact Erun|].
+    + intros _. split; [exact Erun|].
       apply andb_prop in Ok. destruct Ok as [Ok _].
       rewrite forallb_forall in Ok. apply Forall_forall. intros o Ho Heq. subst o.
       specialize (Ok _ Ho). discriminate Ok.
-    + exfalso. apply Hno. apply in_rev_cons_r.
-  - destruct (run (rs_answers r)) as [s1' out'] eqn:Erun.
-    inversion H; subst; clear H. exfalso. apply Hno. apply in_rev_cons_r.
+    + intros Hno. exfalso. apply Hno. apply in_rev_cons_r.
+  - destruct (run (rs_answers r)) as [s1 out] eqn:Erun. cbn [ro_log].
+    intros Hno. exfalso. apply Hno. apply in_rev_cons_r.
 Qed.
 
-(* the same at the level of one script operation *)
-Theorem fevent_complete F st d ev st1 log :
-  fevent F st d ev = (st1, log) -> ~ In FReplayError log ->
-  exists ans out, ostep (f_o F) (fs_s st) ev ans = (fs_s st1, out) /\ Forall (fun o => o <> OMissingAnswer) out.
-Proof.
-  unfold fevent. intros H Hno.
-  destruct (replay_event F d (ctx_of (f_o F) (fs_s st) ev) (fun a => ostep (f_o F) (fs_s st) ev a))
-    as [[[[s1 d1] ans] out] log'] eqn:E.
-  inversion H; subst; clear H.
-  apply replay_event_complete in E; [|exact Hno]. destruct E as [E1 E2].
-  exists ans, out. split; [exact E1|exact E2].
-Qed.
+(* the same at the level of one session event of the script *)
+Theorem fevent_complete F st d ev :
+  let ro := fevent_out F st d ev in
+  ~ In FReplayError (ro_log ro) ->
+  ostep (f_o F) (fs_s st) ev (ro_answers ro) = (ro_s ro, ro_out ro) /\
+  Forall (fun o => o <> OMissingAnswer) (ro_out ro).
+Proof. unfold fevent_out. apply replay_event_complete. Qed.
 
 (* ================================================================================================ *)
 (* (iii) composition for C13                                                                         *)
@@ -254,61 +252,11 @@ Proof.
   - eapply Hstep; [exact H|]. intros pre. reflexivity.
 Qed.
 
-Lemma iin1_class_bits (r c1 c2 c3 bc a0 a1 a2 : bool) :
-  let x := b2n r 128 + b2n c1 2 + b2n c2 4 + b2n c3 8 + b2n bc 1 + b2n a0 16 + b2n a1 32 + b2n a2 64 in
-  N.testbit x 1 = c1 /\ N.testbit x 2 = c2 /\ N.testbit x 3 = c3.
-Proof. destruct r, c1, c2, c3, bc, a0, a1, a2; repeat split; reflexivity. Qed.
-
-Lemma iin2_overflow_bit (v a3 : bool) : N.testbit (b2n v 8 + b2n a3 32) 3 = v.
-Proof. destruct v, a3; reflexivity. Qed.
-
-(* get_response_iin: with the answer (c1, c2, c3, ovf) at the head of the answers, the class bits of
-   IIN1 and the overflow bit of IIN2 are exactly the answer *)
-Lemma response_iin_bits s c1 c2 c3 v rest s' iin1 iin2 o :
-  s_answers s = AEvinfo c1 c2 c3 v :: rest ->
-  response_iin s = (s', (iin1, iin2), o) ->
-  o = [ODb DbEvinfo] /\ s_answers s' = rest /\
-  N.testbit iin1 1 = c1 /\ N.testbit iin1 2 = c2 /\ N.testbit iin1 3 = c3 /\ N.testbit iin2 3 = v.
-Proof.
-  unfold response_iin, ask_evinfo. intros Ha. rewrite Ha.
-  cbn [s_last_bcast upd_answers s_app_iin s_restart_iin].
-  set (a := s_app_iin s).
-  intros H.
-  assert (Hs : s_answers s' = rest).
-  { destruct (s_last_bcast s) as [[]|]; inversion H; subst; reflexivity. }
-  assert (Ho : o = [ODb DbEvinfo]).
-  { destruct (s_last_bcast s) as [[]|]; inversion H; subst; reflexivity. }
-  assert (Hi : iin1 = b2n (s_restart_iin s) 128 + b2n c1 2 + b2n c2 4 + b2n c3 8
-                      + b2n (match s_last_bcast s with Some _ => true | None => false end) 1
-                      + b2n (N.testbit a 0) 16 + b2n (N.testbit a 1) 32 + b2n (N.testbit a 2) 64
-               /\ iin2 = b2n v 8 + b2n (N.testbit a 3) 32).
-  { destruct (s_last_bcast s) as [[]|]; inversion H; subst; split; reflexivity. }
-  destruct Hi as [-> ->].
-  destruct (iin1_class_bits (s_restart_iin s) c1 c2 c3
-              (match s_last_bcast s with Some _ => true | None => false end)
-              (N.testbit a 0) (N.testbit a 1) (N.testbit a 2)) as (B1 & B2 & B3).
-  repeat split; auto. apply iin2_overflow_bit.
-Qed.
-
-Definition class_bits (bytes : list N) : bool * bool * bool :=
-  (N.testbit (nth 2 bytes 0) 1, N.testbit (nth 2 bytes 0) 2, N.testbit (nth 2 bytes 0) 3).
-Definition overflow_bit (bytes : list N) : bool := N.testbit (nth 3 bytes 0) 3.
+(* (response_iin_bits, or_iin_bits, class_bits, overflow_bit, clean: Outstation/SessionEvinfo.v) *)
 
 (* a response as the handlers build it: no IIN1 bit, and of IIN2 at most NO_FUNC_CODE_SUPPORT,
-   OBJECT_UNKNOWN, PARAMETER_ERROR (every constructor of Session.v: empty_solicited, control_response,
-   unsol_header, the READ responses with the database's IIN2) *)
-Definition handler_response (r : response) : Prop := r_iin1 r = 0 /\ N.testbit (r_iin2 r) 3 = false.
-
-Lemma or_iin_bits r iin1 iin2 :
-  handler_response r ->
-  N.testbit (r_iin1 (or_iin r (iin1, iin2))) 1 = N.testbit iin1 1 /\
-  N.testbit (r_iin1 (or_iin r (iin1, iin2))) 2 = N.testbit iin1 2 /\
-  N.testbit (r_iin1 (or_iin r (iin1, iin2))) 3 = N.testbit iin1 3 /\
-  N.testbit (r_iin2 (or_iin r (iin1, iin2))) 3 = N.testbit iin2 3.
-Proof.
-  intros [H1 H2]. unfold or_iin. cbn [r_iin1 r_iin2 fst snd]. rewrite H1.
-  rewrite N.lor_0_l, N.lor_spec, H2. auto.
-Qed.
+   OBJECT_UNKNOWN, PARAMETER_ERROR *)
+Definition handler_response (r : response) : Prop := clean r.
 
 (* write_solicited *)
 Lemma write_solicited_bits s dest r c1 c2 c3 v rest s' r' o :
@@ -316,16 +264,16 @@ Lemma write_solicited_bits s dest r c1 c2 c3 v rest s' r' o :
   write_solicited s dest r = (s', r', o) ->
   exists bytes, o = [ODb DbEvinfo; OTx dest bytes] /\ class_bits bytes = (c1, c2, c3) /\ overflow_bit bytes = v.
 Proof.
-  intros Ha Hr. unfold write_solicited.
-  destruct (response_iin s) as [[s1 [iin1 iin2]] o1] eqn:E.
-  eapply response_iin_bits in E; [|exact Ha].
-  destruct E as (-> & _ & B1 & B2 & B3 & B4).
-  destruct (or_iin_bits r iin1 iin2 Hr) as (Q1 & Q2 & Q3 & Q4).
-  intros H. inversion H; subst; clear H.
-  eexists. split; [reflexivity|].
-  unfold class_bits, overflow_bit, response_bytes. cbn [nth app].
-  destruct (s_last_bcast s1) as [[]|]; cbn [with_ctl r_iin1 r_iin2];
-    rewrite Q1, Q2, Q3, Q4; auto.
+  intros Ha Hr Hw. pose proof (write_solicited_T _ _ _ _ _ _ Hr Hw) as (Ht & _ & _).
+  rewrite Ha in Ht.
+  assert (Ho : exists bytes, o = [ODb DbEvinfo; OTx dest bytes]).
+  { unfold write_solicited in Hw. destruct (response_iin s) as [[s1 iin] o1] eqn:E.
+    destruct iin as [i1 i2]. eapply response_iin_bits in E; [|exact Ha]. destruct E as (-> & _).
+    inversion Hw; subst. eexists. reflexivity. }
+  destruct Ho as [bytes ->]. exists bytes. split; [reflexivity|].
+  inversion Ht; subst; try discriminate;
+    try (match goal with H : iin_ok _ _ _ _ _ |- _ => exact H end);
+    try (match goal with H : head_not_ev _ |- _ => destruct H end).
 Qed.
 
 (* write_unsolicited *)
@@ -334,15 +282,16 @@ Lemma write_unsolicited_bits cfg s r c1 c2 c3 v rest s' r' o :
   write_unsolicited cfg s r = (s', r', o) ->
   exists bytes, o = [ODb DbEvinfo; OTx (o_master cfg) bytes] /\ class_bits bytes = (c1, c2, c3) /\ overflow_bit bytes = v.
 Proof.
-  intros Ha Hr. unfold write_unsolicited.
-  destruct (response_iin s) as [[s1 [iin1 iin2]] o1] eqn:E.
-  eapply response_iin_bits in E; [|exact Ha].
-  destruct E as (-> & _ & B1 & B2 & B3 & B4).
-  destruct (or_iin_bits r iin1 iin2 Hr) as (Q1 & Q2 & Q3 & Q4).
-  intros H. inversion H; subst; clear H.
-  eexists. split; [reflexivity|].
-  unfold class_bits, overflow_bit, response_bytes. cbn [nth app].
-  rewrite Q1, Q2, Q3, Q4. auto.
+  intros Ha Hr Hw. pose proof (write_unsolicited_T _ _ _ _ _ _ Hr Hw) as (Ht & _ & _).
+  rewrite Ha in Ht.
+  assert (Ho : exists bytes, o = [ODb DbEvinfo; OTx (o_master cfg) bytes]).
+  { unfold write_unsolicited in Hw. destruct (response_iin s) as [[s1 iin] o1] eqn:E.
+    destruct iin as [i1 i2]. eapply response_iin_bits in E; [|exact Ha]. destruct E as (-> & _).
+    inversion Hw; subst. eexists. reflexivity. }
+  destruct Ho as [bytes ->]. exists bytes. split; [reflexivity|].
+  inversion Ht; subst; try discriminate;
+    try (match goal with H : iin_ok _ _ _ _ _ |- _ => exact H end);
+    try (match goal with H : head_not_ev _ |- _ => destruct H end).
 Qed.
 
 (* THE COMPOSITION.  Let a pass of the replay stop at a DbEvinfo call and answer it (WAsk ... a ...).
@@ -374,4 +323,297 @@ Proof.
   - intros cfg s r more s' r' o Ha Hr Hw.
     destruct (write_unsolicited_bits _ _ _ _ _ _ _ _ _ _ _ Ha Hr Hw) as (bytes & Ho & Hc & Hv).
     exists bytes. rewrite <- E3, <- E4. auto.
+Qed.
+
+(* ================================================================================================ *)
+(* (iii, continued) whole steps of the composed model                                                 *)
+
+(* ---- the IIN2 values that enter the session from the parser and the database are small ------------ *)
+
+Lemma frag_digest_small bytes : sm_digest (frag_digest bytes).
+Proof.
+  destruct (frag_digest_total bytes) as (d & <- & Hs).
+  destruct (frag_digest bytes) as [| |ctl fn rv [v|hdrs rh]]; cbn; try exact I.
+  destruct Hs as (_ & _ & _ & [->| [->| ->]]); reflexivity.
+Qed.
+
+Lemma sdb_push_sm d it : sm (snd (sdb_push d it)).
+Proof. unfold sdb_push. destruct (_ =? _); reflexivity. Qed.
+
+Lemma sdb_select_type_sm d t v r : sm (snd (sdb_select_type d t v r)).
+Proof.
+  unfold sdb_select_type.
+  destruct (match r with Some r0 => Some r0 | None => pmap_full_range (sd_maps d t) end) as [[a b]|];
+    [apply sdb_push_sm|reflexivity].
+Qed.
+
+Lemma sdb_select_class0_sm l : forall acc, sm (snd acc) -> sm (snd (fold_left sdb_select_class0_type l acc)).
+Proof.
+  induction l as [|t l IH]; intros [d iin] Hacc; cbn [fold_left]; [exact Hacc|].
+  apply IH. unfold sdb_select_class0_type. destruct (sd_c0 d t); [|exact Hacc].
+  pose proof (sdb_select_type_sm d t None None) as Hs.
+  destruct (sdb_select_type d t None None) as [d' i]. cbn [snd] in *. apply sm_lor; assumption.
+Qed.
+
+Lemma sdb_select_sm d h : sm (snd (sdb_select d h)).
+Proof.
+  destruct h as [|t v r]; cbn [sdb_select]; [|apply sdb_select_type_sm].
+  apply sdb_select_class0_sm. reflexivity.
+Qed.
+
+Lemma db_select_sm d h : sm (snd (db_select d h)).
+Proof.
+  destruct h as [h|h]; cbn [db_select].
+  - pose proof (sdb_select_sm (db_static d) h) as Hs. destruct (sdb_select (db_static d) h) as [s' iin]. exact Hs.
+  - destruct (ebuf_select_by_header (db_events d) h) as [e' n]. reflexivity.
+Qed.
+
+Lemma select_headers_sm : forall hs d, sm (snd (fst (select_headers d hs))).
+Proof.
+  induction hs as [|h r IH]; intros d; cbn [select_headers]; [reflexivity|].
+  destruct (rh_classify h) as [|x| |].
+  - specialize (IH d). destruct (select_headers d r) as [[d' v] u]. cbn [fst snd] in *.
+    apply sm_lor; [reflexivity|exact IH].
+  - pose proof (db_select_sm d x) as Hs. destruct (db_select d x) as [d1 v1].
+    specialize (IH d1). destruct (select_headers d1 r) as [[d2 v2] u]. cbn [fst snd] in *.
+    apply sm_lor; assumption.
+  - apply IH.
+  - specialize (IH d). destruct (select_headers d r) as [[d' v] u]. exact IH.
+Qed.
+
+(* every answer the replay computes is small *)
+Lemma walk_ask_small F : forall rest d c n log d' c' log' a k,
+  walk F d c n log rest = WAsk d' c' log' a k -> sm_ans a.
+Proof.
+  induction rest as [|o tl IH]; intros d c n log d' c' log' a k H; [discriminate H|].
+  cbn [walk] in H.
+  destruct o as [dest bytes|call|cb|i| |t| |]; try (eapply IH; exact H); try discriminate H.
+  - destruct call as [| |b1 b2 b3| | | |].
+    + destruct tl as [|[] tl']; try discriminate H.
+      pose proof (select_headers_sm (request_headers (wc_cur c)) d) as Hs.
+      destruct (select_headers d _) as [[d1 v1] u]. inversion H; subst. exact Hs.
+    + destruct tl as [|[] tl']; try discriminate H.
+      unfold write_answer in H. destruct (db_write_response d _) as [d1 [[bytes he] cpl]].
+      inversion H; subst. exact I.
+    + destruct (unsol_answer F d b1 b2 b3) as [d1 [cnt body]]. destruct (cnt =? 0); inversion H; subst; exact I.
+    + destruct (db_clear_written d) as [d1 [ids cnt]]. eapply IH; exact H.
+    + eapply IH; exact H.
+    + destruct tl as [|[] tl']; try discriminate H. inversion H; subst.
+      unfold evinfo_answer_of. destruct (db_unwritten_classes d') as [[u1 u2] u3]. exact I.
+    + destruct tl as [|[] tl']; try discriminate H.
+      unfold select_deferred in H.
+      pose proof (select_headers_sm (firstn deferred_capacity (filter hdr_is_read (request_headers (deferred_request c)))) (db_reset d)) as Hs.
+      destruct (select_headers (db_reset d) _) as [[d1 v1] u]. inversion H; subst. exact Hs.
+  - destruct i; eapply IH; exact H.
+Qed.
+
+(* an AEvinfo answer is the one of the database state the pass hands back *)
+Lemma walk_ask_ev F rest d c n log d' c' log' a k :
+  walk F d c n log rest = WAsk d' c' log' a k -> answer_is_evinfo a = true -> a = evinfo_answer_of d'.
+Proof.
+  intros H Ha. destruct a as [v|cpl he b|cnt b|c1 c2 c3 v]; try discriminate Ha.
+  apply walk_evinfo in H. destruct H as (pre & post & cpre & logpre & _ & _ & E3 & E4 & _).
+  unfold evinfo_answer_of. rewrite <- E3, <- E4. reflexivity.
+Qed.
+
+(* ---- invariants of the replay ------------------------------------------------------------------------ *)
+
+Definition evinfos (l : list answer) : list answer := filter answer_is_evinfo l.
+
+Definition rinv (r : rstate) : Prop :=
+  Forall sm_ans (rs_answers r) /\ evinfos (rs_answers r) = map evinfo_answer_of (rs_snaps r).
+
+Lemma replay_inv fuel F run : forall r r',
+  rinv r -> replay fuel F run r = RDone r' \/ replay fuel F run r = RFail r' -> rinv r'.
+Proof.
+  induction fuel as [|f IH]; intros r r' Hr H.
+  - cbn [replay] in H. destruct H as [H|H]; [discriminate|]. inversion H; subst. exact Hr.
+  - cbn [replay] in H.
+    destruct (walk F (rs_db r) (rs_ctx r) (rs_settled r) (rs_log r)
+                   (skipn (rs_settled r) (snd (run (rs_answers r ++ [sentinel]))))) as [d c log|d c log a k|log] eqn:W.
+    + destruct H as [H|H]; [|discriminate]. inversion H; subst. exact Hr.
+    + eapply IH; [|exact H]. destruct Hr as [A B]. split; cbn [rs_answers rs_snaps].
+      * apply Forall_app. split; [exact A|]. constructor; [|constructor]. eapply walk_ask_small; exact W.
+      * unfold evinfos in *. rewrite filter_app. cbn [filter].
+        destruct (answer_is_evinfo a) eqn:Ea.
+        -- rewrite map_app. cbn [map]. rewrite B. f_equal. f_equal. eapply walk_ask_ev; eauto.
+        -- rewrite app_nil_r. exact B.
+    + destruct H as [H|H]; [discriminate|]. inversion H; subst. exact Hr.
+Qed.
+
+Lemma replay_event_inv F d c run :
+  let ro := replay_event F d c run in
+  Forall sm_ans (ro_answers ro) /\ evinfos (ro_answers ro) = map evinfo_answer_of (ro_snaps ro) /\
+  run (ro_answers ro) = (ro_s ro, ro_out ro).
+Proof.
+  unfold replay_event. cbv zeta.
+  assert (H0 : rinv {| rs_answers := []; rs_db := d; rs_ctx := c; rs_settled := 0; rs_log := []; rs_snaps := [] |}).
+  { split; [constructor|reflexivity]. }
+  destruct (replay replay_fuel F run _) as [r|r] eqn:R.
+  - pose proof (replay_inv _ _ _ _ _ H0 (or_introl R)) as [A B].
+    destruct (run (rs_answers r)) as [s1 out] eqn:E. cbn [ro_answers ro_snaps ro_s ro_out]. auto.
+  - pose proof (replay_inv _ _ _ _ _ H0 (or_intror R)) as [A B].
+    destruct (run (rs_answers r)) as [s1 out] eqn:E. cbn [ro_answers ro_snaps ro_s ro_out]. auto.
+Qed.
+
+(* ---- the responses a step builds and transmits ------------------------------------------------------- *)
+
+(* (destination, octets) of every fragment transmitted directly after a DbEvinfo call, in order *)
+Fixpoint fresh_tx (o : list oobs) : list (N * list N) :=
+  match o with
+  | [] => []
+  | x :: tl =>
+      match x, tl with
+      | ODb DbEvinfo, OTx dest bytes :: _ => (dest, bytes) :: fresh_tx tl
+      | _, _ => fresh_tx tl
+      end
+  end.
+
+Lemma fresh_tx_plain x l : is_ev x = false -> fresh_tx (x :: l) = fresh_tx l.
+Proof. destruct x as [|[]| | | | | |]; cbn; intros H; try reflexivity; discriminate H. Qed.
+
+Definition ev_ok (e : answer) (p : N * list N) : Prop :=
+  match e with AEvinfo c1 c2 c3 v => iin_ok c1 c2 c3 v (snd p) | _ => False end.
+
+Lemma tracked_pairs a o a' :
+  tracked a o a' -> Forall (fun x => x <> OMissingAnswer) o ->
+  exists used, evinfos a = used ++ evinfos a' /\ Forall2 ev_ok used (fresh_tx o).
+Proof.
+  induction 1 as [a|a x l a' Hx Ht IH|x a l a' Hx Ht IH|c1 c2 c3 v a dest bytes l a' Hok Ht IH|a dest bytes l a' Hh Ht IH];
+    intros Hm.
+  - exists []. split; [reflexivity|constructor].
+  - inversion Hm; subst. destruct (IH H2) as (used & E & F). exists used. rewrite fresh_tx_plain; auto.
+  - destruct (IH Hm) as (used & E & F). exists used. split; [|exact F].
+    unfold evinfos in *. cbn [filter]. change (answer_is_evinfo x) with (is_evans x). rewrite Hx. exact E.
+  - inversion Hm; subst. inversion H2; subst. destruct (IH H4) as (used & E & F).
+    exists (AEvinfo c1 c2 c3 v :: used). split.
+    + unfold evinfos in *. cbn [filter answer_is_evinfo]. rewrite E. reflexivity.
+    + cbn [fresh_tx]. constructor; [exact Hok|exact F].
+  - inversion Hm; subst. inversion H2; subst. exfalso. apply H3. reflexivity.
+Qed.
+
+Lemma Forall2_weaken {A B} (P Q : A -> B -> Prop) : (forall x y, P x y -> Q x y) ->
+  forall l q, Forall2 P l q -> Forall2 Q l q.
+Proof. intros H l q F. induction F; constructor; auto. Qed.
+
+Lemma Forall2_map_left {A B C} (f : A -> B) (P : B -> C -> Prop) : forall l q,
+  Forall2 P (map f l) q -> Forall2 (fun x y => P (f x) y) l q.
+Proof.
+  induction l as [|x l IH]; intros q H; cbn [map] in H; inversion H; subst; constructor; auto.
+Qed.
+
+(* the statement about one list of database snapshots and one output *)
+Definition iin_truthful (snaps : list db) (out : list oobs) : Prop :=
+  exists used rest, snaps = used ++ rest /\
+    Forall2 (fun dsnap p => class_bits (snd p) = db_unwritten_classes dsnap /\
+                            overflow_bit (snd p) = db_is_overflown dsnap) used (fresh_tx out).
+
+Theorem replay_event_c13 F d c run :
+  (forall ans s' o, Forall sm_ans ans -> run ans = (s', o) -> exists a', tracked ans o a') ->
+  let ro := replay_event F d c run in
+  ~ In FReplayError (ro_log ro) -> iin_truthful (ro_snaps ro) (ro_out ro).
+Proof.
+  intros Hrun ro Hno.
+  destruct (replay_event_inv F d c run) as (Hsm & Hev & Hr). fold ro in Hsm, Hev, Hr.
+  destruct (replay_event_complete F d c run Hno) as [_ Hmiss]. fold ro in Hmiss.
+  destruct (Hrun _ _ _ Hsm Hr) as [a' Ht].
+  destruct (tracked_pairs _ _ _ Ht Hmiss) as (used & E & F2).
+  rewrite Hev in E. apply map_eq_app in E. destruct E as (l1 & l2 & E1 & E2 & _).
+  exists l1, l2. split; [exact E1|]. subst used. apply Forall2_map_left in F2.
+  eapply Forall2_weaken; [|exact F2]. intros dsnap p. unfold ev_ok, evinfo_answer_of.
+  destruct (db_unwritten_classes dsnap) as [[c1 c2] c3]. intros [A B]. split; assumption.
+Qed.
+
+(* ---- one session event, one script operation, the start-up -------------------------------------------- *)
+
+Local Opaque replay_event.
+
+(* EVERY RESPONSE BUILT AND TRANSMITTED during one event of the composed model (fresh_tx: the fragments
+   sent directly after a DbEvinfo call; retransmissions are repeats of such fragments) carries the class
+   bits and the overflow bit of the database state at the moment of that DbEvinfo call (ro_snaps: the
+   states the replay had reached when it answered the calls, see walk_evinfo / walk_ask_ev). *)
+Theorem fevent_c13 F st d ev :
+  small_pd (fs_s st) -> sm_event ev ->
+  let ro := fevent_out F st d ev in
+  ~ In FReplayError (ro_log ro) -> iin_truthful (ro_snaps ro) (ro_out ro).
+Proof.
+  intros Hpd Hev. unfold fevent_out. apply replay_event_c13.
+  intros ans s' o Hans H. exists (s_answers s').
+  exact (proj1 (ostep_tracked _ _ _ _ _ _ Hpd Hans Hev H)).
+Qed.
+
+Theorem fstart_c13 F sel op appiin :
+  let ro := fstart_out F sel op appiin in
+  ~ In FReplayError (ro_log ro) -> iin_truthful (ro_snaps ro) (ro_out ro).
+Proof.
+  unfold fstart_out. apply replay_event_c13.
+  intros ans s' o Hans H. exists (s_answers s').
+  exact (proj1 (ostart_tracked _ _ _ _ _ _ _ Hans H)).
+Qed.
+
+(* the hypotheses of fevent_c13 hold along every history of the composed model *)
+Lemma fevent_small F st d ev :
+  small_pd (fs_s st) -> sm_event ev -> small_pd (fs_s (fst (fevent F st d ev))).
+Proof.
+  intros Hpd Hev. unfold fevent. cbn [fst fs_s]. unfold fevent_out.
+  destruct (replay_event_inv F d (ctx_of (f_o F) (fs_s st) ev) (fun a => ostep (f_o F) (fs_s st) ev a))
+    as (Hsm & _ & Hr).
+  cbv beta in Hr.
+  exact (proj2 (ostep_tracked _ _ _ _ _ _ Hpd Hsm Hev Hr)).
+Qed.
+
+(* the session event (and the database it meets) of a script operation *)
+Definition fop_event (st : fstate) (op : fop) : db * oevent :=
+  match op with
+  | FRx from bc bytes => (fs_db st, ERx from bc bytes (frag_digest bytes))
+  | FSleep ms => (fs_db st, ESleep ms)
+  | FAdd t i k => (fst (db_add (fs_db st) t i (default_pconfig t k)), EDbChange)
+  | FUpdate t i v => (fst (db_update (fs_db st) t i v true Detect), EDbChange)
+  | FHandler sel op => (fs_db st, EHandler sel op)
+  | FAppIin v => (fs_db st, EAppIin v)
+  | FDisconnect => (fs_db st, EDisconnect)
+  end.
+
+Lemma fop_event_small st op : sm_event (snd (fop_event st op)).
+Proof. destruct op; cbn; try exact I. apply frag_digest_small. Qed.
+
+Lemma fstep_fevent F st op :
+  fst (fstep F st op) = fst (fevent F st (fst (fop_event st op)) (snd (fop_event st op))) /\
+  exists pre, snd (fstep F st op) = pre ++ snd (fevent F st (fst (fop_event st op)) (snd (fop_event st op))).
+Proof.
+  destruct op as [from bc bytes|ms|t i k|t i v|sel op|v|]; cbn [fstep fop_event fst snd].
+  - destruct (fevent F st (fs_db st) (ERx from bc bytes (frag_digest bytes))) as [st1 log]. split; [reflexivity|].
+    eexists [_]. reflexivity.
+  - split; [reflexivity|exists []; reflexivity].
+  - destruct (db_add (fs_db st) t i (default_pconfig t k)) as [d1 ok]. cbn [fst].
+    destruct (fevent F st d1 EDbChange) as [st1 log]. split; [reflexivity|]. eexists [_]. reflexivity.
+  - destruct (db_update (fs_db st) t i v true Detect) as [d1 info]. cbn [fst].
+    destruct (fevent F st d1 EDbChange) as [st1 log]. split; [reflexivity|]. eexists [_]. reflexivity.
+  - split; [reflexivity|exists []; reflexivity].
+  - split; [reflexivity|exists []; reflexivity].
+  - split; [reflexivity|exists []; reflexivity].
+Qed.
+
+Theorem fstep_small F st op : small_pd (fs_s st) -> small_pd (fs_s (fst (fstep F st op))).
+Proof.
+  intros H. destruct (fstep_fevent F st op) as [-> _]. apply fevent_small; [exact H|apply fop_event_small].
+Qed.
+
+Theorem fstart_small F sel op appiin : small_pd (fs_s (fst (fstart F sel op appiin))).
+Proof.
+  unfold fstart. cbn [fst fs_s]. unfold fstart_out.
+  destruct (replay_event_inv F (fdb_new F) ctx_start (fun a => ostart (f_o F) sel op appiin a)) as (Hsm & _ & Hr).
+  cbv beta in Hr.
+  exact (proj2 (ostart_tracked _ _ _ _ _ _ _ Hsm Hr)).
+Qed.
+
+(* one script operation *)
+Theorem fstep_c13 F st op :
+  small_pd (fs_s st) ->
+  let ro := fevent_out F st (fst (fop_event st op)) (snd (fop_event st op)) in
+  ~ In FReplayError (snd (fstep F st op)) -> iin_truthful (ro_snaps ro) (ro_out ro).
+Proof.
+  intros Hpd ro Hno. apply fevent_c13; [exact Hpd|apply fop_event_small|].
+  intros Hin. apply Hno. destruct (fstep_fevent F st op) as [_ [pre ->]].
+  apply in_or_app. right. exact Hin.
 Qed.
